@@ -112,7 +112,8 @@ int sQuerySpace(SuperMatrix *L, SuperMatrix *U, mem_usage_t *mem_usage)
 {
     SCformat *Lstore;
     NCformat *Ustore;
-    register int n, iword, dword, panel_size = sp_ienv(1);
+    register int n, panel_size = sp_ienv(1);
+    register float iword, dword; /* float: the counts below exceed INT_MAX/sizeof(double) for large factors */
 
     Lstore = L->Store;
     Ustore = U->Store;
